@@ -1432,28 +1432,50 @@ CollectResults:
 			c.log.Printf("Call to %q canceled by caller (mode=%s): %s",
 				procedure, c.cancelMode, err)
 		}
-		c.send(&wamp.Cancel{
+		// Send CANCEL. Until the connection takes it, keep taking (and
+		// discarding) what run() hands over for this call: run() may be
+		// offering a reply right now, and if the connection has ended it is
+		// run() that has to notice that and close Done() - neither side
+		// would ever get on if this goroutine only waited for Done() here.
+		cancelMsg := &wamp.Cancel{
 			Request: id,
 			Options: wamp.SetOption(nil, wamp.OptMode, c.cancelMode),
-		})
-		// Wait for the ERROR from the dealer.
-		timer := time.NewTimer(c.responseTimeout)
-	waitCancel:
-		// Discard responses until ERROR or timeout
-		select {
-		case msg, ok = <-wait:
-			if !ok {
+		}
+		var answered bool
+		for sent := false; !sent && !answered; {
+			select {
+			case c.sess.Send() <- cancelMsg:
+				sent = true
+			case <-c.Done():
+				sent = true
+			case msg, ok = <-wait:
+				if !ok {
+					return nil, err
+				}
+				// An ERROR ends the call as well as the one awaited below.
+				_, answered = msg.(*wamp.Error)
+			}
+		}
+		if !answered {
+			// Wait for the ERROR from the dealer.
+			timer := time.NewTimer(c.responseTimeout)
+		waitCancel:
+			// Discard responses until ERROR or timeout
+			select {
+			case msg, ok = <-wait:
+				if !ok {
+					timer.Stop()
+					return nil, err
+				}
+				if _, ok = msg.(*wamp.Error); !ok {
+					// Discard message
+					goto waitCancel
+				}
 				timer.Stop()
-				return nil, err
+			case <-timer.C:
+				// Did not get expected response to cancel
+				err = ErrReplyTimeout
 			}
-			if _, ok = msg.(*wamp.Error); !ok {
-				// Discard message
-				goto waitCancel
-			}
-			timer.Stop()
-		case <-timer.C:
-			// Did not get expected response to cancel
-			err = ErrReplyTimeout
 		}
 	case <-c.Done():
 		err = ErrNotConn
